@@ -619,7 +619,7 @@ fn workloads(thorough: bool, recv_size: usize, send_size: usize) -> Vec<Workload
   // first, while the backend has seen nothing else: ordering under back-pressure is timing sensitive
   w.push(Workload::SlowConsumer { n: if thorough { 10_000 } else { 4000 }, rcvhwm: 4 });
   if thorough {
-    w.push(Workload::SlowConsumer { n: 10_000, rcvhwm: 1 });
+    w.push(Workload::SlowConsumer { n: 1500, rcvhwm: 1 });
     w.push(Workload::SlowConsumer { n: 5000, rcvhwm: 64 });
   }
   let sides: Vec<u8> = if thorough { vec![0, 1, 2] } else { vec![2] };
@@ -708,6 +708,9 @@ fn main() {
   // process, so concurrent cells would interfere with each other's observations
   let selected: Vec<(usize, Workload)> = ws.iter().cloned().enumerate().filter(|(_, w)| filter.as_ref().map(|f| format!("{:?}", w).contains(f.as_str())).unwrap_or(true)).collect();
   let run = |w: &Workload, v: Variant| -> Result<Value, String> {
+    // announced before it runs: if the process dies inside this cell the parent knows where
+    println!("{}", json!({"event": "begin", "workload": format!("{:?}", w).chars().take(90).collect::<String>(), "variant": v.name()}));
+    let _ = std::io::Write::flush(&mut std::io::stdout());
     let w2 = w.clone();
     let r = rt.block_on(async { tokio::spawn(async move { tokio::time::timeout(Duration::from_secs(60), run_workload(&w2, v)).await }).await });
     match r {
@@ -790,7 +793,10 @@ fn main() {
     if debug {
       eprintln!("TIME w{} {:?} {}", wi, t_w.elapsed(), short);
     }
+    // incremental result: survives a later abort of the process
+    println!("{}", json!({"event": "workload_done", "workload": short, "cells": 1 + vs.len(), "violations": violations.drain(..).collect::<Vec<_>>(), "samples": samples.drain(..).collect::<Vec<_>>()}));
+    let _ = std::io::Write::flush(&mut std::io::stdout());
   }
-  println!("{}", json!({"pool": pool, "cells": cells, "workloads": ws.len(), "variants": vs.iter().map(|v| v.name()).collect::<Vec<_>>(), "violations": violations, "samples": samples, "unstable_cells_without_verdict": unstable}));
+  println!("{}", json!({"event": "summary", "pool": pool, "cells": cells, "workloads": ws.len(), "variants": vs.iter().map(|v| v.name()).collect::<Vec<_>>(), "violations": violations, "samples": samples, "unstable_cells_without_verdict": unstable}));
   std::process::exit(0);
 }
